@@ -19,6 +19,9 @@ use std::collections::{BTreeMap, VecDeque};
 pub struct MockApi {
     pub answers: BTreeMap<String, VecDeque<Vec<u8>>>,
     pub calls: Vec<(NodeId, String, Vec<u8>)>,
+    /// the actor's own fields (field index -> SBOR payload); a field handle is the field index
+    pub fields: BTreeMap<u8, Vec<u8>>,
+    pub field_writes: Vec<(u8, Vec<u8>)>,
 }
 
 impl MockApi {
@@ -61,7 +64,7 @@ impl SystemActorApi<RuntimeError> for MockApi {
         unimplemented!("MockApi::actor_is_feature_enabled")
     }
     fn actor_open_field( &mut self, state_handle: ActorStateHandle, field: FieldIndex, flags: LockFlags, ) -> Result<FieldHandle, RuntimeError> {
-        unimplemented!("MockApi::actor_open_field")
+        Ok(field as u32)
     }
     fn actor_emit_event( &mut self, event_name: String, event_data: Vec<u8>, event_flags: EventFlags, ) -> Result<(), RuntimeError> {
         Ok(())
@@ -162,16 +165,18 @@ impl SystemExecutionTraceApi<RuntimeError> for MockApi {
 
 impl SystemFieldApi<RuntimeError> for MockApi {
     fn field_read(&mut self, handle: FieldHandle) -> Result<Vec<u8>, RuntimeError> {
-        unimplemented!("MockApi::field_read")
+        Ok(self.fields.get(&(handle as u8)).expect("MockApi: field not set").clone())
     }
     fn field_write(&mut self, handle: FieldHandle, buffer: Vec<u8>) -> Result<(), RuntimeError> {
-        unimplemented!("MockApi::field_write")
+        self.field_writes.push((handle as u8, buffer.clone()));
+        self.fields.insert(handle as u8, buffer);
+        Ok(())
     }
     fn field_lock(&mut self, handle: FieldHandle) -> Result<(), RuntimeError> {
         unimplemented!("MockApi::field_lock")
     }
     fn field_close(&mut self, handle: FieldHandle) -> Result<(), RuntimeError> {
-        unimplemented!("MockApi::field_close")
+        Ok(())
     }
 }
 
